@@ -88,9 +88,13 @@ def do_run(spec):
                     res["checks"][cid] = {"exit": crc, "violation": viol[:1], "summary": [s[:400] for s in summary[:1]], "replay_head": detail, "wall_s": round(time.time() - t0, 1)}
             finally:
                 sh("git -C /repo checkout -- .")
-        res["detected"] = any(c["exit"] != 0 for c in res["checks"].values())
+        # reported = a non-zero exit WITH a VIOLATION line; a non-zero exit without one is a crash of the check itself (a defect of
+        # ours, e.g. a generator that does not load): it is shown as such and never counted as a report
+        res["detected"] = any(c["exit"] != 0 and c["violation"] for c in res["checks"].values())
+        res["check_crashed"] = [k for k, c in res["checks"].items() if c["exit"] != 0 and not c["violation"]]
         json.dump(res, open(f"{d}/result.json", "w"), indent=1)
-        print(pid, k, "applies" if res["applies_to_current_head"] else "DOES NOT APPLY", "DETECTED" if res["detected"] else "missed",
+        print(pid, k, "applies" if res["applies_to_current_head"] else "DOES NOT APPLY",
+              "CHECK CRASHED " + ",".join(res["check_crashed"]) if res.get("check_crashed") else "DETECTED" if res["detected"] else "missed",
               {c: v["exit"] for c, v in res["checks"].items()}, flush=True)
     assert repo_clean()
 
